@@ -331,7 +331,27 @@ func verifHarness_C20_dialect(version int, shape int) {
 		wire = frame.VerifSpecV2(0, 0, seq, sys, comp, spec.ID(), payload, ck, false, 0, 0, nil)
 	}
 	verifAssert(w.Write(&Entry{Time: time.Unix(1700000000, 123456000), Frame: fr}) == nil, "C20/Wd/write-ok")
-	file := rec.Buf()
+	// a second entry: an already encoded (raw) frame whose message id the dialect does not know - a log holds whatever
+	// was on the link
+	rid := verifNondetU8()
+	verifAssume(rid < 100) // ids 0..99 are outside the harness dialect (200..)
+	rp := verifNondetBytes(2)
+	rck := verifNondetU16()
+	var rfr frame.Frame
+	var rwire []byte
+	if version == 1 {
+		rfr = &frame.V1Frame{SequenceNumber: seq, SystemID: sys, ComponentID: comp, Checksum: rck,
+			Message: &message.MessageRaw{ID: uint32(rid), Payload: rp}}
+		rwire = frame.VerifSpecV1(seq, sys, comp, rid, []byte{rp[0], rp[1]}, rck)
+	} else {
+		rfr = &frame.V2Frame{SequenceNumber: seq, SystemID: sys, ComponentID: comp, Checksum: rck,
+			Message: &message.MessageRaw{ID: uint32(rid), Payload: rp}}
+		rwire = frame.VerifSpecV2(0, 0, seq, sys, comp, uint32(rid), []byte{rp[0], rp[1]}, rck, false, 0, 0, nil)
+	}
+	verifAssert(w.Write(&Entry{Time: time.Unix(1700000001, 0), Frame: rfr}) == nil, "C20/Wd/raw-entry-outside-the-dialect-written")
+	whole := rec.Buf()
+	verifAssert(len(whole) == 8+len(wire)+8+len(rwire) && verifEqBytes(whole[8+len(wire)+8:], rwire), "C20/Wd/file-holds-the-raw-frame-too")
+	file := whole[:8+len(wire)]
 	verifAssert(len(file) == 8+len(wire) && verifEqBytes(file[8:], wire), "C20/Wd/file-holds-the-spec-frame-of-the-message")
 	verifAssert(verifBE64dec(file[:8]) == 1700000000123456, "C20/Wd/file-timestamp")
 	r := &Reader{ByteReader: frame.VerifChunkReader(file, nil), DialectRW: d}
